@@ -275,4 +275,162 @@ theorem no_other_key {D} (cx : Ctx D) (k : Kind) (d : Deposit) (wf : WellFormed 
   rw [spend_eq cx k d wf sig pk sz]
   simp [spendSpec, hw, hr]
 
+/-- CHECKSIG never pushes `true` for a signature that does not verify -/
+theorem opCheckSig_invalid {D} (cx : Ctx D) (wit : Bool) (code pk der : Bytes) (ht : UInt8)
+    (hv : cx.verify pk der (checkSigDigest cx wit code ht) = false) (r : List Bytes)
+    (h : opCheckSig cx wit code [pk, der ++ [ht]] = .ok r) : r = [[]] := by
+  simp only [opCheckSig, List.getLast?_append, List.getLast?_singleton, Option.some_or,
+    List.dropLast_concat] at h
+  simp only [hv] at h
+  split at h
+  · cases h
+  · split at h
+    · cases h
+    · split at h
+      · cases h
+      · split at h
+        · cases h
+        · split at h
+          · simp [fromBool] at h; exact h.symm
+          · split at h
+            · cases h
+            · simp [fromBool] at h; exact h.symm
+
+/-- C28 (2b)/(1b): whoever holds whichever key, a signature that does not verify never spends. -/
+theorem invalid_signature_rejected {D} (cx : Ctx D) (k : Kind) (d : Deposit) (wf : WellFormed d)
+    (der pk : Bytes) (ht : UInt8) (sz : Sizes cx d (der ++ [ht]) pk)
+    (hv : cx.verify pk der (checkSigDigest cx (isWit k) (template d) ht) = false) :
+    accepted (spend cx k (template d) (der ++ [ht]) pk) = false := by
+  rw [spend_eq cx k d wf _ pk sz]
+  unfold spendSpec
+  have key : ∀ r, opCheckSig cx (isWit k) (template d) [pk, der ++ [ht]] = .ok r → r = [[]] :=
+    opCheckSig_invalid cx _ _ pk der ht hv
+  cases hcs : opCheckSig cx (isWit k) (template d) [pk, der ++ [ht]] with
+  | error e =>
+    by_cases hw : cx.hash160 pk = d.walletPKH
+    · simp [hw, accepted]
+    · by_cases hr : cx.hash160 pk = d.refundPKH
+      · have hw2 : ¬ d.refundPKH = d.walletPKH := fun e => hw (hr.trans e)
+        cases hcl : cltvCheck d.refundLocktime cx.locktime cx.sequence <;> simp [hw, hr, hw2, hcl, accepted]
+      · simp [hw, hr, accepted]
+  | ok r =>
+    have := key r hcs
+    subst this
+    by_cases hw : cx.hash160 pk = d.walletPKH
+    · cases k <;> simp [hw, accepted, checkFinal, asBool, isWit]
+    · by_cases hr : cx.hash160 pk = d.refundPKH
+      · have hw2 : ¬ d.refundPKH = d.walletPKH := fun e => hw (hr.trans e)
+        cases hcl : cltvCheck d.refundLocktime cx.locktime cx.sequence <;>
+          cases k <;> simp [hw, hr, hw2, hcl, accepted, checkFinal, asBool, isWit]
+      · simp [hw, hr, accepted]
+
+/-- C28 (4): depositor, blinding factor and extra data do not alter the spend conditions: two
+    deposits that agree on wallet key hash, refund key hash and refund locktime give the same
+    verdict to the same key (each spend signed for its own script). -/
+theorem extra_data_irrelevant {D} (cx : Ctx D) (k : Kind) (d d' : Deposit)
+    (wf : WellFormed d) (wf' : WellFormed d')
+    (hw : d.walletPKH = d'.walletPKH) (hr : d.refundPKH = d'.refundPKH)
+    (hl : d.refundLocktime = d'.refundLocktime)
+    (pk der der' : Bytes) (ht ht' : UInt8)
+    (sz : Sizes cx d (der ++ [ht]) pk) (sz' : Sizes cx d' (der' ++ [ht']) pk)
+    (g : GoodSig cx (isWit k) (template d) pk der ht)
+    (g' : GoodSig cx (isWit k) (template d') pk der' ht') :
+    spend cx k (template d) (der ++ [ht]) pk = spend cx k (template d') (der' ++ [ht']) pk := by
+  rw [spend_good cx k d wf der pk ht sz g, spend_good cx k d' wf' der' pk ht' sz' g', hw, hr, hl]
+
+/-- Monitor tie (valid signature): the monitor accepts what the model does, for every deposit,
+    key, transaction locktime and sequence. -/
+theorem holds_model_good {D} (cx : Ctx D) (k : Kind) (d : Deposit) (wf : WellFormed d)
+    (der pk : Bytes) (ht : UInt8) (sz : Sizes cx d (der ++ [ht]) pk)
+    (g : GoodSig cx (isWit k) (template d) pk der ht) :
+    holds d (cx.hash160 pk) true cx.locktime cx.sequence
+      (accepted (spend cx k (template d) (der ++ [ht]) pk)) = true := by
+  rw [spend_good cx k d wf der pk ht sz g]
+  unfold holds role
+  by_cases hw : cx.hash160 pk = d.walletPKH
+  · simp [hw, accepted]
+  · by_cases hr : cx.hash160 pk = d.refundPKH
+    · have hw2 : ¬ d.refundPKH = d.walletPKH := fun e => hw (hr.trans e)
+      cases hcl : cltvCheck d.refundLocktime cx.locktime cx.sequence <;> simp [hw, hr, hw2, hcl, accepted]
+    · simp [hw, hr, accepted]
+
+/-- Monitor tie (signature that does not verify). -/
+theorem holds_model_bad {D} (cx : Ctx D) (k : Kind) (d : Deposit) (wf : WellFormed d)
+    (der pk : Bytes) (ht : UInt8) (sz : Sizes cx d (der ++ [ht]) pk)
+    (hv : cx.verify pk der (checkSigDigest cx (isWit k) (template d) ht) = false) :
+    holds d (cx.hash160 pk) false cx.locktime cx.sequence
+      (accepted (spend cx k (template d) (der ++ [ht]) pk)) = true := by
+  rw [invalid_signature_rejected cx k d wf der pk ht sz hv]
+  unfold holds
+  cases role d (cx.hash160 pk) <;> simp
+
+/-- For refund locktimes as real deposits have them (4 bytes, last byte 1..127, i.e. a minimally
+    encoded positive number), the CLTV condition is the plain one: same kind of locktime, script
+    locktime ≤ transaction locktime, input not final. -/
+theorem cltvCheck_plain (a b c m : UInt8) (txLock seq : Nat) (hm : 1 ≤ m.toNat ∧ m.toNat ≤ 127) :
+    cltvCheck [a, b, c, m] txLock seq = none ↔
+      ((txLock < lockTimeThreshold ↔ leNat [a, b, c, m] < lockTimeThreshold) ∧
+        leNat [a, b, c, m] ≤ txLock ∧ seq ≠ maxSequence) := by
+  have h1 : minimalNum [a, b, c, m] = true := by
+    simp [minimalNum]; left; omega
+  have h2 : scriptNum [a, b, c, m] = (leNat [a, b, c, m] : Int) := by
+    have : ¬ 128 ≤ m.toNat := by omega
+    simp [scriptNum, this]
+  unfold cltvCheck
+  simp only [List.length_cons, List.length_nil, h1, h2]
+  simp
+  generalize leNat [a, b, c, m] = L
+  have hL : ¬ ((L : Int) < 0) := by omega
+  simp only [hL, if_false]
+  by_cases hA : (lockTimeThreshold ≤ txLock ∨ lockTimeThreshold ≤ L) ∧
+      (txLock < lockTimeThreshold ∨ L < lockTimeThreshold)
+  · simp only [hA, if_true]
+    simp
+    omega
+  · simp only [hA, if_false]
+    by_cases hB : txLock < L
+    · simp [hB]; omega
+    · by_cases hC : seq = maxSequence
+      · simp [hB, hC]
+      · simp [hB, hC]; omega
+
+/-! ## Non-vacuity: the hypotheses of the theorems above are satisfiable, and the model rejects -/
+
+set_option maxRecDepth 20000
+
+def exDeposit : Deposit :=
+  { depositor := List.replicate 20 7, extra := none, blinding := List.replicate 8 1,
+    walletPKH := List.replicate 20 0xaa, refundPKH := List.replicate 20 0xbb,
+    refundLocktime := [0x00, 0x5e, 0xd0, 0x65] }
+
+def exPk : Bytes := 0x02 :: List.replicate 32 5
+def exRefundPk : Bytes := 0x03 :: List.replicate 32 6
+
+/-- a context in which `exPk` hashes to the wallet PKH, `exRefundPk` to the refund PKH and
+    every signature verifies -/
+def exCtx (txLock seq : Nat) : Ctx Unit :=
+  { hash160 := fun x => if x == exPk then exDeposit.walletPKH else if x == exRefundPk then
+      exDeposit.refundPKH else List.replicate 20 0
+    sha256 := fun _ => List.replicate 32 0, sigEnc := fun _ => none, parsePk := fun _ => true,
+    sighash := fun _ _ _ _ => (), verify := fun _ _ _ => true,
+    locktime := txLock, sequence := seq, amount := 10000 }
+
+example : WellFormed exDeposit :=
+  ⟨by decide, (by intro e h; cases h), by decide, by decide, by decide, by decide⟩
+
+/-- the error of a verdict (`none` = accepted) -/
+def errOf (r : Except Err Unit) : Option Err :=
+  match r with
+  | .ok _ => none
+  | .error e => some e
+
+example : errOf (spend (exCtx 0 maxSequence) .p2wsh (template exDeposit) [0x30, 0x01] exPk) = none := by decide
+example : errOf (spend (exCtx 0 maxSequence) .p2sh (template exDeposit) [0x30, 0x01] exPk) = none := by decide
+-- refund key: locktime 0x65d05e00 = 1708154368
+example : errOf (spend (exCtx 1708154367 0) .p2wsh (template exDeposit) [0x30, 0x01] exRefundPk) = some .unsatisfiedLockTime := by decide
+example : errOf (spend (exCtx 1708154368 0) .p2wsh (template exDeposit) [0x30, 0x01] exRefundPk) = none := by decide
+example : errOf (spend (exCtx 1708154368 maxSequence) .p2sh (template exDeposit) [0x30, 0x01] exRefundPk) = some .unsatisfiedLockTime := by decide
+example : errOf (spend (exCtx 1708154368 0) .p2sh (template exDeposit) [0x30, 0x01] (0x02 :: List.replicate 32 9)) = some .equalVerify := by decide
+example : holds exDeposit exDeposit.refundPKH true 1708154367 0 true = false := by decide
+
 end KeepVerif.C28
